@@ -17,6 +17,7 @@
 (*   malformed         the stored string is not an expression              *)
 (*   regroup           Denote(stored) # Denote(src)                        *)
 (*   outer-parens      the stored string is not one parenthesised group    *)
+(*                     (a bare list expression: is not stored bare)        *)
 (*   printed           printed tokens # stored tokens                      *)
 (*   reload-rejected   the printed text is not accepted                    *)
 (*   reload-differs    reloaded tokens # stored tokens                     *)
@@ -49,7 +50,7 @@ SeqDiff(a, b, i) ==
 RECURSIVE TreeDiff(_, _)
 TreeDiff(a, b) ==
     IF a[1] # b[1] THEN <<a[1], b[1]>>
-    ELSE IF a[1] \in {"ATOM", "FUNC", "ERR"} THEN <<a[1], b[1]>>
+    ELSE IF a[1] \in {"ATOM", "FUNC", "LIST", "ERR"} THEN <<a[1], b[1]>>
     ELSE IF a[2] # b[2] THEN <<a[1], b[1]>>
     ELSE IF a[3] # b[3] THEN TreeDiff(a[3], b[3])
     ELSE TreeDiff(a[4], b[4])
@@ -66,7 +67,9 @@ Verdict(tr) ==
         ELSE IF Flat(tr.st) # NormFlat(tr.src) THEN V("spelling", SeqDiff(NormFlat(tr.src), Flat(tr.st), 1))
         ELSE IF dst = ErrT THEN V("malformed", <<"", "">>)
         ELSE IF dst # ds THEN LET p == TreeDiff(ds, dst) IN V("regroup", <<Coarse(p[1]), Coarse(p[2])>>)
-        ELSE IF ~Matched(tr.st) THEN V("outer-parens", <<Coarse(dst[1]), IF StartsEnds(tr.st) THEN "of-parens" ELSE "bare">>)
+        ELSE IF Matched(tr.src) /\ ~Matched(tr.st)
+             THEN V("outer-parens", <<Coarse(dst[1]), IF StartsEnds(tr.st) THEN "of-parens" ELSE "bare">>)
+        ELSE IF ~Matched(tr.src) /\ Matched(tr.st) THEN V("outer-parens", <<Coarse(dst[1]), "added">>)
         ELSE IF tr.pr # tr.st THEN V("printed", SeqDiff(tr.st, tr.pr, 1))
         ELSE IF ~tr.rlok THEN V("reload-rejected", <<ReloadClass(tr, dst[1]), "">>)
         ELSE IF tr.rl # tr.st THEN V("reload-differs", <<ReloadClass(tr, dst[1]), "">>)
